@@ -64,6 +64,9 @@ AcceptMatrix(m) ==
     /\ \A i, j \in 1..N : m.pcmp[i][j]                                          \* partial_cmp = Some(cmp)
     /\ \A i, j \in 1..N : m.eq[i][j] => m.heq[i][j]                             \* equal => equal hashes
     /\ \A i, j \in 1..N : (ex[i].decl = ex[j].decl) => ex[i].info = ex[j].info  \* identities are coherent
+    \* ... also with the one alias every type has whether or not the corpus names it: the declared identity ITSELF is a
+    \* type with type info; it declares itself and reports the same definition
+    /\ \A i \in 1..N : ex[i].idid = ex[i].decl /\ ex[i].idinfo = ex[i].info
 \* a value must decode from the registry the whole program built AND from the registry that holds this type alone
 AcceptValue(v) == Check = "C04" => /\ DecodesTo(reg.types, reg.ids[v.i + 1], v.bytes, v.tree)
                                    /\ (solo # <<>> /\ solo.i = v.i) => DecodesTo(solo.types, solo.id, v.bytes, v.tree)
@@ -72,7 +75,7 @@ AcceptPerm(e) == /\ Check = "C11" => RegIso(e.types1, e.types2, {<<e.ids1[i], e.
                  /\ Check = "C01" => WellFormed(e.types1) /\ WellFormed(e.types2) /\ \A i \in 1..Len(e.ids2) : e.ids2[i] < Len(e.types2)
 Next == /\ l <= Len(Rec)
         /\ LET e == Rec[l] IN
-           CASE e.ev = "Expr" -> /\ ex' = (IF e.i = 0 THEN <<>> ELSE ex) \o <<[e |-> e.e, tid |-> e.tid, decl |-> e.decl, info |-> e.info]>>
+           CASE e.ev = "Expr" -> /\ ex' = (IF e.i = 0 THEN <<>> ELSE ex) \o <<[e |-> e.e, tid |-> e.tid, decl |-> e.decl, info |-> e.info, idinfo |-> e.idinfo, idid |-> e.idid]>>
                                  /\ reg' = IF e.i = 0 THEN <<>> ELSE reg
                                  /\ solo' = IF e.i = 0 THEN <<>> ELSE solo
              [] e.ev = "Solo" -> /\ Check = "C01" => WellFormed(e.types) /\ e.id < Len(e.types)
